@@ -170,6 +170,7 @@ Definition prop_idxread (input obs : val) : val :=
      source kind: 0 bytes.Reader | 1 Read+Seek only | 2 plain io.Reader | 3 os.File
                   | 4 io.ReaderAt through NewReader(..).DataReader()
                   | 5 bufio.Reader over a plain reader | 6 bytes.Buffer (plain streams with ReadByte)
+                  | 7 iotest.DataErrReader | 8 iotest.HalfReader | 9 iotest.OneByteReader (plain)
      opts = (zeroLengthAsEOF maxHeader storeIdentity maxIndexCidSize)
      codec: 0x0400 | 0x0401 | 0x300003 (InsertionIndex handed to LoadIndex)
      expect (for the property predicate only) = (tvalid hlen blocks payload pad) | (tnone)
@@ -181,10 +182,11 @@ Definition codec_insertion : N := 3145731. (* 0x300003 *)
 Definition v_gopts (v : val) : gopts :=
   mkgopts (vbool (vnth 0 v)) (vN (vnth 1 v)) (vbool (vnth 2 v)) (vN (vnth 3 v)).
 
-(* 2 plain io.Reader, 5 bufio.Reader, 6 bytes.Buffer: no Seek method, so ToByteReadSeeker puts the
+(* 2 plain io.Reader, 5 bufio.Reader, 6 bytes.Buffer, 7 iotest.DataErrReader (last data arrive with
+   io.EOF), 8 iotest.HalfReader, 9 iotest.OneByteReader (short reads): no Seek method, so ToByteReadSeeker puts the
    discarding wrapper around them whether or not they have ReadByte *)
 Definition src_of_kind (k : N) : srckind :=
-  if (k =? 2) || (k =? 5) || (k =? 6) then SrcPlain else SrcSeek.
+  if (k =? 2) || (5 <=? k) then SrcPlain else SrcSeek.
 
 Definition run_load (fx : fixes) (input : val) : res (list irec) :=
   let kind := vN (vnth 0 input) in
@@ -221,7 +223,8 @@ Definition run_idxgen (input : val) : val := run_idxgen_with repaired input.
 (* the clauses of C03 on what the implementation returned, for a constructed archive *)
 Definition class_of_kind (k : N) : string :=
   if k =? 2 then "plain-reader" else if k =? 4 then "reader-at"
-  else if (k =? 5) || (k =? 6) then "plain-bytereader" else "seekable".
+  else if (k =? 5) || (k =? 6) then "plain-bytereader"
+  else if 7 <=? k then "plain-short-or-eof-with-data" else "seekable".
 Definition fail3 (clause cls : string) : val := VL [VT "FAIL"; VT clause; VT cls].
 
 Definition prop_idxgen (input obs : val) : val :=
@@ -337,4 +340,52 @@ Definition prop_idxbig (input obs : val) : val :=
   else if negb (is_tag (vnth 2 (vnth 5 obs)) "same") then fail "roundtrip-remarshal-differs"
   else if negb (val_eqb (vnth 6 obs) (vnth 6 want)) then fail "roundtrip-iteration-differs"
   else if negb (val_eqb (vnth 7 obs) (vnth 7 want)) then fail "lookup-differs-from-record-multiset"
+  else VT "ok".
+
+(* ---- kind idxgenbig: an archive with more sections than LoadIndex could ever hand to idx.Load in
+   one piece if it batched (tens of thousands of tiny sections) ---------------------------------------
+   As for idxbig, the position-based layer-A walker ([view] = [drop pos all], linear per step) cannot
+   process such a file in the time budget, so ONLY layer B is evaluated: the block list is built from
+   a rule shared with the harness (harness/k_indexgenbig.go c03BigBlocks) and the expectation comes
+   from [sections_at] / [section_indexed] / [spec_lookup].
+     input = (source kind, opts, (code dl n ndup), hlen, codec, samples, container)
+     block i < n: CID = 01 55 <code_i> <dl> <big_digest dl i>, data = one byte (i mod 251);
+                  code_i = 0 (identity) when i mod 16 = 15, else code
+     then ndup blocks repeating block (7 j mod n), j < ndup
+     samples: block indices (beyond n: a key that is absent)
+     container: n0 bare CARv1 | n1 CARv2 (offsets are payload-relative either way)
+   observation = (terr class) | (tok entries resolved getalls)
+     entries: records in the generated index; resolved: indexed sections whose own CID's GetAll
+     contains their own offset (counted by the harness, which knows the offsets by construction) *)
+Definition gbig_block (code dl i : N) : block :=
+  ([x01; x55] ++ put_uv (if i mod 16 =? 15 then 0 else code) ++ put_uv dl ++ big_digest dl i,
+   [n2b (i mod 251)]).
+Definition gbig_blocks (d : val) : list block :=
+  let code := vN (vnth 0 d) in let dl := vN (vnth 1 d) in
+  let n := vN (vnth 2 d) in let ndup := vN (vnth 3 d) in
+  rev_append (snd (N.iter n (fun st => (fst st + 1, gbig_block code dl (fst st) :: snd st)) (0, []))) [] ++
+  rev_append (snd (N.iter ndup (fun st => (fst st + 1, gbig_block code dl ((7 * fst st) mod n) :: snd st)) (0, []))) [].
+
+Definition gbig_expected (input : val) : val :=
+  let o := v_gopts (vnth 1 input) in
+  let d := vnth 2 input in
+  let hlen := vN (vnth 3 input) in
+  let codec := vN (vnth 4 input) in
+  let samples := vL (vnth 5 input) in
+  let bs := gbig_blocks d in
+  let nidx := N.of_nat (length (filter (fun b => section_indexed o (fst b)) bs)) in
+  let by_code := codec =? codec_mh_sorted in
+  VL [VT "ok"; VN nidx; VN nidx;
+      VL (map (fun s => let k := v_key (fst (gbig_block (vN (vnth 0 d)) (vN (vnth 1 d)) (vN s))) in
+                        v_offs (sort_N (spec_lookup o by_code (fst k) (snd k) hlen bs))) samples)].
+
+Definition run_idxgenbig (input : val) : val := gbig_expected input.
+
+Definition prop_idxgenbig (input obs : val) : val :=
+  let cls := class_of_kind (vN (vnth 0 input)) in
+  let want := gbig_expected input in
+  if negb (is_tag (vnth 0 obs) "ok") then fail3 "valid-archive-not-indexed" cls
+  else if negb (val_eqb (vnth 1 obs) (vnth 1 want)) then fail3 "index-record-count-differs-from-indexed-sections" cls
+  else if negb (val_eqb (vnth 2 obs) (vnth 2 want)) then fail3 "section-not-resolvable-through-the-index" cls
+  else if negb (val_eqb (vnth 3 obs) (vnth 3 want)) then fail3 "lookup-differs-from-reference-scan" cls
   else VT "ok".
